@@ -21,8 +21,10 @@
 #include <txdb.h>
 #include <uint256.h>
 #include <util/fs.h>
+#include <util/threadpool.h>
 
 #include <filesystem>
+#include <malloc.h>
 #include <map>
 #include <memory>
 #include <optional>
@@ -164,17 +166,17 @@ std::string CoinStr(const std::optional<Coin>& c)
 }
 
 // ---------------------------------------------------------------------------------------------
-// the real cache with its protected state readable (read-only; as CCoinsViewCacheTest in coins_tests.cpp)
+// read-only access to the protected state of the real caches (as CCoinsViewCacheTest in coins_tests.cpp does)
 
-class XCache final : public CCoinsViewCache
-{
-public:
-    using CCoinsViewCache::CCoinsViewCache;
-    const CCoinsMap& Map() const { return cacheCoins; }
-    size_t CoinsUsage() const { return cachedCoinsUsage; }
-    const uint256& RawBest() const { return m_block_hash; }
-    const CoinsCachePair& Sentinel() const { return m_sentinel; }
+struct Peek : public CCoinsViewCache {
+    static const CCoinsMap& Map(const CCoinsViewCache& c) { return c.*(&Peek::cacheCoins); }
+    static size_t CoinsUsage(const CCoinsViewCache& c) { return c.*(&Peek::cachedCoinsUsage); }
+    static const uint256& RawBest(const CCoinsViewCache& c) { return c.*(&Peek::m_block_hash); }
+    static const CoinsCachePair& Sentinel(const CCoinsViewCache& c) { return c.*(&Peek::m_sentinel); }
 };
+/** the layers are plain CCoinsViewCache objects or CoinsViewOverlay objects (the ConnectBlock view; thread pool without workers,
+ *  so no prefetching: what differs is that its misses are filled through base->PeekCoin and leave the lower caches untouched) */
+using XCache = CCoinsViewCache;
 
 // ---------------------------------------------------------------------------------------------
 // plan
@@ -186,7 +188,6 @@ Plan Gen(uint64_t seed, Tier tier)
     const bool thorough = tier == Tier::THOROUGH;
     // three populations: small scope (1-2 outpoints, short), dense (6-12 outpoints), on-disk with restarts and crashes
     int pop = (int)rng.pick({30, 50, 20});
-    if (getenv("C15_POP")) pop = atoi(getenv("C15_POP")); // TEMP
     int nout = pop == 0 ? (int)rng.range(1, 2) : (int)rng.range(6, 12);
     bool disk = pop == 2;
     p.knobs["nout"] = nout;
@@ -197,6 +198,7 @@ Plan Gen(uint64_t seed, Tier tier)
     int crash = 0;
     if (disk) crash = thorough && rng.chance(1, 3) ? 2 : 1;
     p.knobs["crash"] = crash;
+    p.knobs["whitebox"] = !rng.chance(1, 8);
 
     std::vector<uint32_t> w(N_OPS, 0);
     w[ADD] = 10 + rng.below(30);
@@ -232,7 +234,7 @@ Plan Gen(uint64_t seed, Tier tier)
         case UNCACHE: op.a = {layer, key}; break;
         case SYNC: op.a = {layer}; break;
         case FLUSH: op.a = {layer, (int64_t)rng.below(2)}; break;
-        case PUSH: break;
+        case PUSH: op.a = {(int64_t)rng.chance(1, 4)}; break;
         case POP: op.a = {(int64_t)rng.pick({2, 5, 2})}; break; // 0 drop, 1 flush, 2 sync then drop
         case RESET: op.a = {layer}; break;
         case SETBEST: op.a = {layer}; break;
@@ -263,7 +265,7 @@ std::string Describe(const Op& op)
     case UNCACHE: snprintf(b, sizeof b, "layer[top-%ld].Uncache(out#%ld)", (long)op.arg(0), (long)op.arg(1)); break;
     case SYNC: snprintf(b, sizeof b, "layer[top-%ld].Sync()", (long)op.arg(0)); break;
     case FLUSH: snprintf(b, sizeof b, "layer[top-%ld].Flush(reallocate=%ld)", (long)op.arg(0), (long)(op.arg(1) & 1)); break;
-    case PUSH: snprintf(b, sizeof b, "push a new cache layer"); break;
+    case PUSH: snprintf(b, sizeof b, "push a new cache layer (%s)", op.arg(0) & 1 ? "CoinsViewOverlay" : "CCoinsViewCache"); break;
     case POP: snprintf(b, sizeof b, "pop the top layer (%s)", op.mod(0, 3) == 0 ? "discard" : op.mod(0, 3) == 1 ? "Flush into parent" : "Sync into parent"); break;
     case RESET: snprintf(b, sizeof b, "discard layers above layer[top-%ld], then Reset it via ResetGuard", (long)op.arg(0)); break;
     case SETBEST: snprintf(b, sizeof b, "layer[top-%ld].SetBestBlock(new id)", (long)op.arg(0)); break;
@@ -299,10 +301,12 @@ struct Sim {
     const uint64_t batch;
     const bool obf;
     const int crash_mode;
+    const bool whitebox;
 
     std::vector<COutPoint> outs;
     std::map<COutPoint, int> out_index;
 
+    std::shared_ptr<ThreadPool> pool{std::make_shared<ThreadPool>("c15")}; //!< never started: no worker threads
     std::unique_ptr<CCoinsViewDB> db;
     std::vector<std::unique_ptr<XCache>> layers;
     MDb mdb;
@@ -320,7 +324,7 @@ struct Sim {
 
     explicit Sim(Ctx& c)
         : ctx(c), nout((int)std::clamp<int64_t>(c.knob("nout", 6), 1, 24)), max_layers((int)std::clamp<int64_t>(c.knob("layers", 3), 1, MAX_LAYERS)),
-          disk(c.knob("disk", 0) != 0), batch((uint64_t)std::max<int64_t>(1, c.knob("batch", 16 << 20))), obf(c.knob("obf", 0) != 0), crash_mode((int)c.knob("crash", 0))
+          disk(c.knob("disk", 0) != 0), batch((uint64_t)std::max<int64_t>(1, c.knob("batch", 16 << 20))), obf(c.knob("obf", 0) != 0), crash_mode((int)c.knob("crash", 0)), whitebox(c.knob("whitebox", 1) != 0)
     {
         for (int i = 0; i < nout; ++i) {
             outs.push_back(Outpoint(i));
@@ -363,10 +367,15 @@ struct Sim {
         o.batch_write_bytes = batch;
         return std::make_unique<CCoinsViewDB>(std::move(params), o);
     }
-    void PushLayer()
+    void PushLayer(bool overlay = false)
     {
         CCoinsView* base = RealView(Top());
-        layers.push_back(std::make_unique<XCache>(base, /*deterministic=*/true));
+        if (overlay) {
+            layers.push_back(std::make_unique<CoinsViewOverlay>(base, pool, /*deterministic=*/true));
+            ctx.probe("overlay_layer");
+        } else {
+            layers.push_back(std::make_unique<CCoinsViewCache>(base, /*deterministic=*/true));
+        }
         ml.emplace_back();
         if (Depth() == 3) ctx.probe("three_layers");
     }
@@ -428,8 +437,9 @@ struct Sim {
                 }
             }
             // (b) own recomputation of the accounting and the documented entry-state contract (coins.h), from the cache's map
+            if (!whitebox) continue; // 1/8 of the runs: only what the public interface shows
             size_t usage = 0, ndirty = 0, nflagged = 0;
-            for (const auto& [op, e] : c.Map()) {
+            for (const auto& [op, e] : Peek::Map(c)) {
                 auto it = out_index.find(op);
                 if (it == out_index.end()) ctx.failf("cache-foreign-entry", "after %s: layer %d holds an entry for an outpoint never used", where, L);
                 const int k = it->second;
@@ -446,18 +456,18 @@ struct Sim {
             }
             for (const auto& [k, v] : ml[L].delta) {
                 if (!v) continue;
-                auto it = c.Map().find(outs[k]);
-                if (it == c.Map().end() || !it->second.IsDirty()) ctx.failf("modified-coin-not-dirty-in-cache", "after %s: layer %d out#%d was modified since the last flush but is %s", where, L, k, it == c.Map().end() ? "not cached" : "not DIRTY");
+                auto it = Peek::Map(c).find(outs[k]);
+                if (it == Peek::Map(c).end() || !it->second.IsDirty()) ctx.failf("modified-coin-not-dirty-in-cache", "after %s: layer %d out#%d was modified since the last flush but is %s", where, L, k, it == Peek::Map(c).end() ? "not cached" : "not DIRTY");
             }
             size_t nlinked = 0;
-            for (const CoinsCachePair* p = c.Sentinel().second.Next(); p != &c.Sentinel(); p = p->second.Next())
-                if (++nlinked > c.Map().size() + 1) break;
-            if (usage != c.CoinsUsage()) ctx.failf("accounting-coins-usage", "after %s: layer %d cachedCoinsUsage=%zu, recomputed %zu", where, L, c.CoinsUsage(), usage);
-            if (c.DynamicMemoryUsage() != memusage::DynamicUsage(c.Map()) + usage) ctx.failf("accounting-dynamic-memory-usage", "after %s: layer %d DynamicMemoryUsage=%zu, recomputed %zu", where, L, c.DynamicMemoryUsage(), memusage::DynamicUsage(c.Map()) + usage);
+            for (const CoinsCachePair* p = Peek::Sentinel(c).second.Next(); p != &Peek::Sentinel(c); p = p->second.Next())
+                if (++nlinked > Peek::Map(c).size() + 1) break;
+            if (usage != Peek::CoinsUsage(c)) ctx.failf("accounting-coins-usage", "after %s: layer %d cachedCoinsUsage=%zu, recomputed %zu", where, L, Peek::CoinsUsage(c), usage);
+            if (c.DynamicMemoryUsage() != memusage::DynamicUsage(Peek::Map(c)) + usage) ctx.failf("accounting-dynamic-memory-usage", "after %s: layer %d DynamicMemoryUsage=%zu, recomputed %zu", where, L, c.DynamicMemoryUsage(), memusage::DynamicUsage(Peek::Map(c)) + usage);
             if (ndirty != c.GetDirtyCount()) ctx.failf("accounting-dirty-count", "after %s: layer %d GetDirtyCount=%zu, recomputed %zu", where, L, c.GetDirtyCount(), ndirty);
-            if (c.GetCacheSize() != c.Map().size()) ctx.failf("accounting-cache-size", "after %s: layer %d", where, L);
+            if (c.GetCacheSize() != Peek::Map(c).size()) ctx.failf("accounting-cache-size", "after %s: layer %d", where, L);
             if (nlinked != nflagged) ctx.failf("accounting-flagged-list", "after %s: layer %d flagged list has %zu entries, %zu entries are flagged", where, L, nlinked, nflagged);
-            if (c.RawBest() != BlockHash(ml[L].best)) ctx.failf("best-block-mismatch", "after %s: layer %d best block %s, model id %d", where, L, c.RawBest().ToString().substr(0, 12).c_str(), ml[L].best);
+            if (Peek::RawBest(c) != BlockHash(ml[L].best)) ctx.failf("best-block-mismatch", "after %s: layer %d best block %s, model id %d", where, L, Peek::RawBest(c).ToString().substr(0, 12).c_str(), ml[L].best);
             // (c) bitcoin's own consistency check, last (it aborts on failure; the runner reports the assertion)
             c.SanityCheck();
         }
@@ -474,8 +484,8 @@ struct Sim {
         for (int L = 0; L < Depth(); ++L) {
             h = mix64(h, 0x1000 + L);
             for (auto& [k, v] : ml[L].delta) {
-                auto it = layers[L]->Map().find(outs[k]);
-                int st = it == layers[L]->Map().end() ? 0 : 1 + (it->second.IsDirty() ? 1 : 0) + (it->second.IsFresh() ? 2 : 0) + (it->second.coin.IsSpent() ? 4 : 0);
+                auto it = Peek::Map(*layers[L]).find(outs[k]);
+                int st = it == Peek::Map(*layers[L]).end() ? 0 : 1 + (it->second.IsDirty() ? 1 : 0) + (it->second.IsFresh() ? 2 : 0) + (it->second.coin.IsSpent() ? 4 : 0);
                 h = mix64(h, (uint64_t)k * 64 + (v ? 32 : 0) + st);
             }
             h = mix64(h, layers[L]->GetCacheSize());
@@ -521,14 +531,14 @@ struct Sim {
         for (int k = 0; k < nout; ++k) cached_before[k] = c.HaveCoinInCache(outs[k]);
         for (auto& [k, v] : ml[L].delta) {
             ++modified;
-            auto ce = c.Map().find(outs[k]);
+            auto ce = Peek::Map(c).find(outs[k]);
             if (L > 0) {
-                auto pe = layers[L - 1]->Map().find(outs[k]);
-                if (pe != layers[L - 1]->Map().end()) {
+                auto pe = Peek::Map(*layers[L - 1]).find(outs[k]);
+                if (pe != Peek::Map(*layers[L - 1]).end()) {
                     ctx.probe("push_into_existing_parent_entry");
                     if (pe->second.IsFresh() && !v) ctx.probe("push_spent_into_fresh_parent_entry");
                     if (pe->second.coin.IsSpent() && v) ctx.probe("push_unspent_over_spent_parent_entry");
-                } else if (ce != c.Map().end() && ce->second.IsFresh()) {
+                } else if (ce != Peek::Map(c).end() && ce->second.IsFresh()) {
                     ctx.probe("push_fresh_entry_to_parent");
                 }
             } else {
@@ -565,7 +575,7 @@ struct Sim {
             bool same = (!child && !parent) || (child && parent && child->out == parent->out && child->nHeight == parent->nHeight && child->fCoinBase == parent->fCoinBase);
             if (!same) ctx.failf("parent-differs-from-child-after-push", "%s of layer %d: out#%d child view %s, parent view %s", flush ? "Flush" : "Sync", L, k, CoinStr(child).c_str(), CoinStr(parent).c_str());
         }
-        uint256 pbest = L > 0 ? layers[L - 1]->RawBest() : db->GetBestBlock();
+        uint256 pbest = L > 0 ? Peek::RawBest(*layers[L - 1]) : db->GetBestBlock();
         if (pbest != BlockHash(ml[L].best)) ctx.failf("best-block-not-handed-down", "%s of layer %d", flush ? "Flush" : "Sync", L);
         if (c.GetDirtyCount() != 0) ctx.failf("dirty-entries-left-after-push", "%s of layer %d: GetDirtyCount()=%zu", flush ? "Flush" : "Sync", L, c.GetDirtyCount());
         if (flush) {
@@ -783,8 +793,8 @@ struct Sim {
             }
             // the contract: the check may be skipped only if the view holds no unspent coin for the outpoint
             const bool po = cur.has_value() || (op.arg(2) & 1);
-            auto before = c.Map().find(outs[k]);
-            if (before != c.Map().end() && before->second.coin.IsSpent() && !po) ctx.probe("readd_over_spent_dirty_entry_without_overwrite");
+            auto before = Peek::Map(c).find(outs[k]);
+            if (before != Peek::Map(c).end() && before->second.coin.IsSpent() && !po) ctx.probe("readd_over_spent_dirty_entry_without_overwrite");
             if (cur) ctx.probe("overwrite_unspent_coin");
             if (cur && *cur == coin) ctx.probe("overwrite_with_identical_coin");
             c.AddCoin(outs[k], RealCoin(coin), po);
@@ -801,8 +811,8 @@ struct Sim {
             const int L = Top(), k = (int)op.mod(0, nout);
             XCache& c = *layers[L];
             const MaybeCoin cur = View(L, k);
-            auto before = c.Map().find(outs[k]);
-            const bool was_cached = before != c.Map().end(), was_fresh = was_cached && before->second.IsFresh(), was_spent_entry = was_cached && before->second.coin.IsSpent();
+            auto before = Peek::Map(c).find(outs[k]);
+            const bool was_cached = before != Peek::Map(c).end(), was_fresh = was_cached && before->second.IsFresh(), was_spent_entry = was_cached && before->second.coin.IsSpent();
             Coin moved;
             const bool use_moveto = op.arg(1) & 1;
             bool ret = c.SpendCoin(outs[k], use_moveto ? &moved : nullptr);
@@ -899,8 +909,8 @@ struct Sim {
             break;
         }
         case PUSH:
-            if (Depth() < max_layers) PushLayer();
-            ctx.evf("push -> %d", Depth());
+            if (Depth() < max_layers) PushLayer(op.arg(0) & 1);
+            ctx.evf("push%d -> %d", (int)(op.arg(0) & 1), Depth());
             break;
         case POP: {
             if (Depth() < 2) { ctx.ev("pop noop"); break; }
@@ -962,24 +972,27 @@ Engine MakeEngine()
     e.gen = Gen;
     e.run = Run;
     e.describe = Describe;
-    e.chunk = 1000;
-    e.quick_runs = 60000;
-    e.thorough_runs = 1500000;
+    // harness-side only: every cache layer allocates (and Flush/ReallocateCache releases) a 256 KiB pool chunk; keep those on the heap
+    // instead of one mmap/munmap pair (plus page faults) each
+    e.init = [] { mallopt(M_MMAP_THRESHOLD, 64 << 20); mallopt(M_TRIM_THRESHOLD, 256 << 20); };
+    e.chunk = 400;
+    e.quick_runs = 80000;
+    e.thorough_runs = 1300000;
     e.quick_budget_s = 50;
     e.thorough_budget_s = 900;
     e.rule = "seeded histories over 1-3 CCoinsViewCache layers on a CCoinsViewDB: three populations per seed - small scope (1-2 outpoints, 3-14 operations), dense (6-12 outpoints, "
              "15-300 operations, 10% long runs of 200-2500) on an in-memory LevelDB, and on-disk (6-12 outpoints, 12-90 operations, LevelDB on simfs). Operations with per-run weights: "
              "AddCoin (possible_overwrite per the API contract, identical re-adds, unspendable scripts, the documented illegal overwrite), SpendCoin (with/without moveto), "
-             "GetCoin/AccessCoin/HaveCoin/HaveCoinInCache/PeekCoin on any layer, Uncache on any layer, Sync/Flush of any layer, push/pop of layers (discard, Flush or Sync into the parent), "
+             "GetCoin/AccessCoin/HaveCoin/HaveCoinInCache/PeekCoin on any layer, Uncache on any layer, Sync/Flush of any layer, push/pop of layers (new layer = CCoinsViewCache or, 1 in 4, CoinsViewOverlay without workers; pop = discard, Flush or Sync into the parent), "
              "Reset via ResetGuard, SetBestBlock/GetBestBlock, dirty restart (drop every cache unflushed; on disk close and reopen the database, once in the middle of a run and once at its end). "
-             "Knobs: batch_write_bytes 1-400 B (every coin its own partial batch) or 16 MiB, value obfuscation on/off, max depth. On-disk runs end with crash points inside the recorded "
+             "Knobs: batch_write_bytes 1-400 B (every coin its own partial batch) or 16 MiB, value obfuscation on/off, max depth, whitebox (7/8 of the runs also check the entry flags and accounting from the cache map and call SanityCheck; 1/8 judge only what the public read interface returns). On-disk runs end with crash points inside the recorded "
              "I/O windows of the database BatchWrites: 4-24 seeded points (first/last/inside) or, thorough tier in 1/3 of on-disk runs, EVERY I/O index of EVERY BatchWrite, each as process kill "
              "and as power loss (suffix of un-synced operations dropped, cut inside the window or anywhere since the database was created). non-trivial = a Flush/Sync moved at least one modified "
              "entry to its parent, or a crash image was checked; distinct = distinct fingerprints of (database key set, per layer: modified outpoints with spent/unspent and the real entry's "
              "DIRTY/FRESH/spent state, cache size) after an operation, and (window, crash point, semantics, outcome) per crash image (first 64 per run). "
              "The probe `crash_images_checked` counts evaluated crash images.";
     e.real_components = {"CCoinsViewCache (AddCoin, SpendCoin, FetchCoin, GetCoin/AccessCoin/HaveCoin/HaveCoinInCache/PeekCoin, BatchWrite, Flush, Sync, Uncache, Reset via ResetGuard, SetBestBlock/GetBestBlock, SanityCheck)",
-                         "CoinsViewCacheCursor", "CCoinsViewDB (GetCoin, HaveCoin, BatchWrite with partial batches, GetBestBlock, GetHeadBlocks, Cursor)", "CDBWrapper / CDBBatch incl. obfuscation, Coin serialization and TxOutCompression",
+                         "CoinsViewOverlay (no workers: FetchCoinFromBase through PeekCoin, Flush/Reset overrides)", "CoinsViewCacheCursor", "CCoinsViewDB (GetCoin, HaveCoin, BatchWrite with partial batches, GetBestBlock, GetHeadBlocks, Cursor)", "CDBWrapper / CDBBatch incl. obfuscation, Coin serialization and TxOutCompression",
                          "LevelDB (memenv, or posix env: log, manifest, table files, recovery)"};
     e.stub_components = {"disk and page cache (simfs: recorded pass-through to tmpfs; crash = log cut + rebuild)", "process crash / restart (objects destroyed without flushing; never a real kill)", "callers of the cache (scripted; they follow the documented API contract)"};
     e.assumptions = {"workload stays inside the documented contract: only the top cache of a stack is modified, possible_overwrite=false only when the view holds no unspent coin, a layer has a non-null best block before Flush/Sync",
@@ -990,7 +1003,7 @@ Engine MakeEngine()
                          "overwrite_unspent_coin", "push_into_existing_parent_entry", "push_spent_into_fresh_parent_entry", "push_unspent_over_spent_parent_entry", "push_fresh_entry_to_parent",
                          "uncache_refused_dirty_entry", "uncache_removed_clean_entry", "reset", "three_layers", "db_batchwrite", "db_partial_batches", "db_erase_coin", "db_overwrite_coin",
                          "dirty_restart_db_reopened", "restart_lost_unflushed_modifications", "crash_kill_in_batchwrite", "crash_powerloss_in_batchwrite", "crash_left_marked_transition",
-                         "crash_left_mix_of_old_and_new_entries", "crash_left_old_state", "crash_left_new_state", "illegal_overwrite_threw", "unspendable_add_ignored"};
+                         "crash_left_mix_of_old_and_new_entries", "crash_left_old_state", "crash_left_new_state", "illegal_overwrite_threw", "unspendable_add_ignored", "overlay_layer"};
     return e;
 }
 Engine g_engine = MakeEngine();
